@@ -22,6 +22,59 @@ use std::hash::{Hash, Hasher};
 use std::sync::atomic::{AtomicU64, Ordering};
 use std::sync::{Arc, Mutex};
 
+/// What each checker thread is doing right now, for the stall watchdog: the
+/// real code may loop forever inside a transition (e.g. a broken iterator).
+pub struct Beat {
+    pub since: std::time::Instant,
+    pub rep: &'static str,
+    pub model: String,
+    pub abs: Abs,
+    pub act: Option<Act>,
+}
+pub static BEATS: Mutex<Vec<Option<Beat>>> = Mutex::new(Vec::new());
+thread_local! {
+    static BEAT_SLOT: std::cell::Cell<usize> = const { std::cell::Cell::new(usize::MAX) };
+}
+fn beat_begin(rep: &'static str, model: &str, abs: &Abs, act: Option<Act>) {
+    let mut b = BEATS.lock().unwrap();
+    let mut i = BEAT_SLOT.with(std::cell::Cell::get);
+    if i == usize::MAX {
+        i = b.len();
+        b.push(None);
+        BEAT_SLOT.with(|c| c.set(i));
+    }
+    b[i] = Some(Beat { since: std::time::Instant::now(), rep, model: model.to_string(), abs: abs.clone(), act });
+}
+fn beat_end() {
+    let i = BEAT_SLOT.with(std::cell::Cell::get);
+    if i != usize::MAX {
+        BEATS.lock().unwrap()[i] = None;
+    }
+}
+
+/// Watches the checker threads; a transition (or an observation) that does
+/// not return within `secs` is a violation at that (state, action).
+pub fn spawn_stall_watchdog(prop: &'static str, secs: u64) {
+    let _ = std::thread::spawn(move || loop {
+        std::thread::sleep(std::time::Duration::from_millis(500));
+        let b = BEATS.lock().unwrap();
+        for beat in b.iter().flatten() {
+            if beat.since.elapsed().as_secs() >= secs {
+                let path = write_replay(prop, &format!("stall_{}", std::process::id()), &json!({
+                    "property": prop,
+                    "what": format!("{} [{}]: the real code did not return within {secs} s from this state/action (non-termination)", beat.rep, beat.model),
+                    "case": {"kind": "post:hist.stall", "p": [], "idx": 0},
+                    "detail": {"rep": beat.rep, "model": beat.model, "state": beat.abs.arcs_json(), "action": beat.act.map(|a| a.json())},
+                }));
+                println!("VIOLATION property={prop} replay={path}");
+                use std::io::Write;
+                let _ = std::io::stdout().flush();
+                std::process::exit(1);
+            }
+        }
+    });
+}
+
 #[derive(Clone, Copy, Debug, PartialEq, Eq, Hash, PartialOrd, Ord)]
 pub enum Act {
     Add(usize, usize),
@@ -343,7 +396,10 @@ impl<R: HistRep> Model for HModel<R> {
         self.inits
             .iter()
             .map(|(label, d, abs)| {
-                let fault = match observe(d) {
+                beat_begin(R::NAME, &self.label, abs, None);
+                let obs = observe(d);
+                beat_end();
+                let fault = match obs {
                     Ok(o) if same::<R>(&o, abs) => None,
                     Ok(o) => Some(format!("initial state {label}: observed {} but its definition is {}", o.arcs_json(), abs.arcs_json())),
                     Err(e) => Some(format!("initial state {label}: {e}")),
@@ -361,6 +417,15 @@ impl<R: HistRep> Model for HModel<R> {
 
     fn next_state(&self, last: &Self::State, action: Self::Action) -> Option<Self::State> {
         self.transitions.fetch_add(1, Ordering::Relaxed);
+        beat_begin(R::NAME, &self.label, &last.abs, Some(action));
+        let r = self.next_state_inner(last, action);
+        beat_end();
+        r
+    }
+}
+
+impl<R: HistRep> HModel<R> {
+    fn next_state_inner(&self, last: &HState<R>, action: Act) -> Option<HState<R>> {
         let orig_dbg = format!("{:?}", last.real);
         let keep = last.real.clone();
         let mut real = last.real.clone();
@@ -388,15 +453,6 @@ impl<R: HistRep> Model for HModel<R> {
         Some(HState { real, abs, fault, flags: flags & 0 })
     }
 
-    fn properties(&self) -> Vec<Property<Self>> {
-        vec![Property::<Self>::always("real digraph tracks the abstract digraph", |m, s| {
-            if m.collect && s.fault.is_none() {
-                let mut seen = m.seen.lock().unwrap();
-                seen.entry(format!("{:?}", s.real)).or_insert_with(|| (s.real.clone(), s.abs.clone()));
-            }
-            s.fault.is_none()
-        })]
-    }
 }
 
 fn all_pairs(ids: &[usize]) -> Vec<(usize, usize)> {
@@ -528,6 +584,9 @@ fn run_model<R: HistRep>(prop: &str, m: HModel<R>, threads: usize, ctx: &mut Ctx
             };
             let hashes: Vec<u64> = items.iter().map(|(d, _)| hash(d)).collect();
             'outer: for (i, (a, aa)) in items.iter().enumerate() {
+                if i % 64 == 0 {
+                    beat_begin(R::NAME, &out.label, aa, None);
+                }
                 // clone equals original
                 let c = a.clone();
                 if c != *a || hash(&c) != hashes[i] || c.cmp(a) != std::cmp::Ordering::Equal {
@@ -566,6 +625,7 @@ fn run_model<R: HistRep>(prop: &str, m: HModel<R>, threads: usize, ctx: &mut Ctx
                     }
                 }
             }
+            beat_end();
         }
     }
     out
@@ -614,6 +674,7 @@ fn ax_window(n: usize) -> Vec<(usize, usize)> {
 
 pub fn run_all(prop: &'static str, tier: &str, ctx: &mut Ctx) -> Value {
     let thorough = tier == "thorough";
+    spawn_stall_watchdog(prop, 30);
     let threads = std::thread::available_parallelism().map_or(8, |n| n.get());
     let mut outs: Vec<Value> = Vec::new();
     let pairs_pass = true;
@@ -635,8 +696,7 @@ pub fn run_all(prop: &'static str, tier: &str, ctx: &mut Ctx) -> Value {
             outs.push(json!({"rep": <$t as Rep>::NAME, "closure": hist_json(&o)}));
         }};
     }
-    let maxn = if thorough { 4 } else { 3 };
-    for n in 1..=maxn {
+    for n in 1..=4 {
         fixed!(AL, n, &[], true);
         fixed!(AX, n, &[], true);
         fixed!(EL, n, &[], true);
@@ -704,7 +764,7 @@ pub fn c01(tier: &str, seed: u64) -> Check {
         seed,
         "explicit-state search (stateright BFS) to closure: states are (real digraph, reference (V,A,w)); the transition function is the real add_arc / add_arc_weighted / remove_arc / toggle applied to a clone under catch_unwind; alphabet = every ordered pair over V ∪ {order, order+1} incl. self-loops (rejected calls are part of the alphabet), weights {1,2} ({-1,2}); initial states = empty(n) plus every generator / operator / From conversion of that order. After every transition: panic iff the call must be rejected and then the digraph is unchanged, remove_arc's return value, full observation (vertices()/arcs()/arcs_weighted() ascending, no self-loop, endpoints in V, order(), size()) equals the reference, has_arc on every pair of ids incl. ids just outside V, == against a freshly built digraph. distinct_nontrivial = transitions that are rejected calls, no-ops (re-add, removal of an absent arc) or weight replacements.",
         &["orders ≥ 5 only through AdjacencyMatrix word-boundary windows (orders 8, 9, 11; 12, 16, 23 thorough)", "weights outside the alphabet are not distinguished by these operations (no arithmetic on them)", "the state hash uses the Debug rendering of the real value, not its own Hash impl"],
-        json!({"max_order_full_alphabet": if tier == "thorough" {4} else {3}}),
+        json!({"max_order_full_alphabet": 4, "max_order_weighted": if tier == "thorough" {4} else {3}}),
     );
     let tier2 = tier.to_string();
     Check { spaces: vec![], report, post: Some(Box::new(move |ctx| run_all("C01", &tier2, ctx))) }
@@ -717,7 +777,7 @@ pub fn c20(tier: &str, seed: u64) -> Check {
         seed,
         "explicit-state closure as in C01 (same models, same transition function) followed by a pass over the closed state set: (a) the number of distinct internal values (Debug rendering) equals the number of distinct abstract digraphs — one concrete value per abstract digraph whatever history (adds, removes, toggles, generators, operators, conversions, From iterators) reached it; (b) for EVERY ordered pair of closed states: == iff same (V,A,w), cmp == Equal iff ==, antisymmetry, partial_cmp = cmp, equal ⇒ equal DefaultHasher output; (c) every transition is applied to a clone and the original is compared before/after; (d) is_complete() on every closed state. distinct_nontrivial as in C01.",
         &["orders ≤ 3 (4 thorough) plus AdjacencyMatrix windows and the AdjacencyMap id pool", "Hash is compared through DefaultHasher only"],
-        json!({"max_order": if tier == "thorough" {4} else {3}}),
+        json!({"max_order": 4}),
     );
     let tier2 = tier.to_string();
     Check { spaces: vec![], report, post: Some(Box::new(move |ctx| run_all("C20", &tier2, ctx))) }
